@@ -11,6 +11,9 @@ package main
 
 import (
 	"fmt"
+	"os"
+	"runtime/debug"
+	"runtime/pprof"
 	"sort"
 	"strings"
 
@@ -163,7 +166,14 @@ func render(res *sharding.ResUpdateNodes, err error) string {
 
 func main() {
 	logger.SetLogLevel("*:NONE")
+	debug.SetGCPercent(800)
+	if f := os.Getenv("VERIF_PPROF"); f != "" {
+		pf, _ := os.Create(f)
+		pprof.StartCPUProfile(pf)
+		defer pprof.StopCPUProfile()
+	}
 	mc.Main("C13", "exploration", func(c *mc.Ctx) {
+		defer pprof.StopCPUProfile()
 		bound := c.Pick(1, 2)
 		var ins []input
 		for _, nb := range []uint32{1, 2} {
@@ -175,7 +185,7 @@ func main() {
 								for _, rnd := range []string{"r1", "r2", "r3"} {
 									for fl := 0; fl < 8; fl++ {
 										for _, rev := range []bool{false, true} {
-											if c.Quick() && (rnd == "r3" || (rev && fl%2 == 1)) {
+											if c.Quick() && (rnd == "r3" || (rev && fl != 6) || (nn == 2 && lv > 3)) {
 												continue
 											}
 											ins = append(ins, input{nb, el, wt, ns, ns, nn, lv, rnd, fl&1 != 0, fl&2 != 0, fl&4 != 0, rev})
